@@ -1385,6 +1385,11 @@ impl Server {
         self.last_activity
     }
 
+    /// Session state was altered and has not been reset yet.
+    pub fn needs_cleanup(&self) -> bool {
+        self.cleanup_connections && self.cleanup_state.needs_cleanup()
+    }
+
     // Marks a connection as needing cleanup at checkin
     pub fn mark_dirty(&mut self) {
         self.cleanup_state.set_true();
